@@ -9,7 +9,9 @@ between) in lock step with the Lean `Dqd` model (`PyribsModel/Dqd.lean`, machine
   optimizer* (logs the gradient handed to `step`, applies `theta += lr * gradient`), injected through the
   public `es=`, `ranker=` and `grad_opt=` arguments; the real `gradient_ascent` and `adam` optimizers are
   used as well.  θ is observed through the next `ask_dqd()`.
-* GradientOperatorEmitter's coefficient noise is reproduced from the seed (same generator, same call order).
+* GradientOperatorEmitter's coefficient noise is reproduced from the seed (same generator, same call order);
+  it is run with and without solution bounds, and the rows its `ask_dqd()` RETURNS (copied at once) are what the
+  model and the oracle branch from: `ask()` must equal clip(returned parent + combination of the gradients).
 
 Numeric policy: un-normalised dyadic inputs with at most one selected parent are compared **exactly**;
 normalised gradients, several parents (log weights) and Gaussian coefficients within 2^-40 relative.
@@ -18,7 +20,9 @@ Oracle (read on the implementation only): RuntimeError and unchanged state for a
 zero Jacobian => ask returns θ; zero selected solutions and no restart => θ unchanged; with gradient ascent
 (0 < lr <= 1) θ' lies coordinate-wise between θ and the weighted mean of the selected solutions; on restart
 θ is a row of `archive.data("solution")`, the strategy is reset to mean 0 and `restarts` moves; the
-objective coefficient of GradientOperatorEmitter is non-negative.
+objective coefficient of GradientOperatorEmitter is non-negative; every row of its `ask()` is
+clip(parent returned by ask_dqd + sigma_g * objective gradient) when measure gradients are off, and -- when they
+are on and the final clip is inactive -- differs from the returned parent by a vector in the span of the gradients.
 """
 import copy
 import warnings
@@ -44,6 +48,14 @@ THEOREMS = [
     "Pyribs.C19.gopCoeffs_rest",
     "Pyribs.C19.gopBranch_in_span",
     "Pyribs.C19.gopObjOnly_in_span",
+    "Pyribs.C19.gop_askDqd_returns_stored",
+    "Pyribs.C19.gop_parents_preserved",
+    "Pyribs.C19.gop_ask_rows_spec",
+    "Pyribs.C19.gop_ask_rows_obj_spec",
+    "Pyribs.C19.gop_ask_from_returned",
+    "Pyribs.C19.gop_ask_unbounded",
+    "Pyribs.C19.gop_ask_in_bounds",
+    "Pyribs.C19.gop_clip_idempotent",
     "Pyribs.C19.gae_refuses_ask",
     "Pyribs.C19.gae_refuses_tell",
     "Pyribs.C19.gae_allows_ask",
@@ -70,6 +82,7 @@ THEOREMS = [
     "Pyribs.C19.no_restart_keeps_counters",
     "Pyribs.C19.nonvacuous",
     "Pyribs.C19.nonvacuous_gop",
+    "Pyribs.C19.nonvacuous_gop_bounded",
 ]
 RULE = ("random call sequences over ask_dqd / tell_dqd / ask / tell (also before any gradients, repeated, and with "
         "mis-shaped Jacobians), archive additions and clears, for solution dimension 1..4, measure dimension 1..3, "
@@ -78,7 +91,9 @@ RULE = ("random call sequences over ask_dqd / tell_dqd / ask / tell (also before
         "including all-zero ones; gradient optimizer spy / gradient_ascent / adam. Strata: gae-exact (un-normalised, "
         "<= 1 parent: bit-exact), gae-rounded (normalised and/or several parents, adam), gae-zero-parents (nothing "
         "inserted under every restart rule), gae-refusal (calls before gradients), gop (GradientOperatorEmitter, "
-        "measure gradients on/off, isotropic / iso_line_dd). A case is non-trivial when it contains an ask after "
+        "measure gradients on/off, isotropic / iso_line_dd, solution bounds none / box / wide / one-sided mix / tight / "
+        "tight around x0 with sigma up to 2 so that ask_dqd clips the perturbed parents often; every row of ask() is "
+        "held to clip(row RETURNED by the preceding ask_dqd + combination of the supplied gradients)). A case is non-trivial when it contains an ask after "
         "gradients with a non-zero Jacobian or a tell after gradients; counted once per distinct operation list.")
 PARTIAL = [
     "the Euclidean norms used by normalisation are supplied to the model (they are square roots); the model checks "
@@ -560,15 +575,35 @@ def run_gop(case, ctx):
     sig, sg, lsig = (float(Fraction(case[k])) for k in ("sigma", "sigma_g", "line_sigma"))
     eps = float(Fraction(case["eps"]))
     line = case["line"]
+    barg = None
+    if case.get("bounds") is not None:
+        barg = [None if b is None else tuple(None if v is None else float(Fraction(v)) for v in b)
+                for b in case["bounds"]]
     em = GradientOperatorEmitter(arch, sigma=sig, sigma_g=sg, x0=x0, line_sigma=lsig, measure_gradients=mg,
                                  normalize_grad=norm, epsilon=eps,
-                                 operator_type="iso_line_dd" if line else "isotropic", batch_size=batch,
-                                 seed=case["seed"])
+                                 operator_type="iso_line_dd" if line else "isotropic", bounds=barg,
+                                 batch_size=batch, seed=case["seed"])
+    lo = [None if v == -np.inf else fr(v) for v in em.lower_bounds]
+    hi = [None if v == np.inf else fr(v) for v in em.upper_bounds]
+
+    def clipf(row):
+        """np.clip on exact rationals"""
+        out = []
+        for k, v in enumerate(row):
+            if lo[k] is not None and v < lo[k]:
+                v = lo[k]
+            if hi[k] is not None and v > hi[k]:
+                v = hi[k]
+            out.append(v)
+        return out
+
     shadow = np.random.default_rng(case["seed"])
     drv = Driver("dqd")
     try:
         drv.ask(f"gop new n={n} m={m} mg={1 if mg else 0} sg={q(Fraction(float(np.float64(sg))))} "
-                f"norm={1 if norm else 0} eps={q(Fraction(eps))}")
+                f"norm={1 if norm else 0} eps={q(Fraction(eps))} "
+                f"lo={','.join('-inf' if v is None else q(v) for v in lo)} "
+                f"hi={','.join('inf' if v is None else q(v) for v in hi)}")
         have_grad = False
         parents = None
         jac = None
@@ -583,8 +618,6 @@ def run_gop(case, ctx):
                 arch.add(rows, np.array([float(Fraction(v)) for v in op["obj"]]), rows_f(op["meas"]))
                 continue
             if o == "ask_dqd":
-                if line and arch.empty:
-                    continue  # iso_line_dd on an empty archive is C08's finding (raises); not part of this property
                 try:
                     p = em.ask_dqd()
                 except Exception as ex:  # pylint: disable=broad-except
@@ -592,8 +625,17 @@ def run_gop(case, ctx):
                 shadow.normal(loc=0.0, scale=np.float64(sig), size=(batch, n))
                 if line:
                     shadow.normal(loc=0.0, scale=lsig, size=(batch, 1))
+                # `parents` is what the CALLER sees: the rows ask_dqd returned (copied at once); every later
+                # ask() must branch from exactly these rows
                 parents = np.array(p, dtype=np.float64, copy=True)
-                drv.ask("gop askdqd " + " ".join(rowtok(frow(r)) for r in parents))
+                prow = [frow(r) for r in parents]
+                if any(clipf(r) != r for r in prow):
+                    return Failure("oracle", f"{where}: ask_dqd returned a row outside the emitter's bounds")
+                if any(v in (lo[k], hi[k]) for r in prow for k, v in enumerate(r)):
+                    ctx.count("gop:ask_dqd-parent-on-a-bound")
+                mret = parse_rows(drv.ask("gop askdqd " + " ".join(rowtok(r) for r in prow)))
+                if mret != prow:
+                    return Failure("corr", f"{where}: model's ask_dqd does not return the (clipped) rows it was given")
                 continue
             if o == "tell_dqd":
                 if parents is None:
@@ -669,19 +711,55 @@ def run_gop(case, ctx):
                                                f"objective coefficient negative")
                             ctx.count("gop:objective-coefficient-observed")
                 exact = (not mg) and (not norm) and case["exact"]
+                orow = [frow(r) for r in out]
+                if any(clipf(r) != r for r in orow):
+                    return Failure("oracle", f"{where}: ask returned a row outside the emitter's bounds")
+                # the gradients as stored (normalised if requested), on exact rationals
+                jst = []
                 for i in range(len(parents)):
-                    jmax = max([Fraction(0)] + [abs(fr(v)) for row in jac[i] for v in row])
+                    rows_ = []
+                    for g in jac[i]:
+                        d = (fr(np.linalg.norm(g)) + Fraction(eps)) if norm else Fraction(1)
+                        rows_.append([fr(v) / d for v in g])
+                    jst.append(rows_)
+                for i in range(len(parents)):
+                    jmax = max([Fraction(0)] + [abs(v) for row in jst[i] for v in row])
                     cmax = max([abs(fr(z)) for z in noise[i]]) if noise is not None else abs(Fraction(sg))
-                    if norm:
-                        jmax = max(jmax, Fraction(1))
-                    sc = max([Fraction(1), jmax * cmax * m] + [abs(v) for v in mrows[i]] +
+                    sc = max([Fraction(1), jmax * cmax * m] + [abs(v) for v in orow[i]] +
                              [abs(v) for v in frow(parents[i])])
-                    ok, w = close(frow(out[i]), mrows[i], sc, exact)
+                    pr = frow(parents[i])
+                    # ---- oracle (no replayed randomness): the row must be clip(RETURNED parent + combination)
+                    if not mg:
+                        want = clipf([pr[k] + jst[i][0][k] * Fraction(sg) for k in range(n)])
+                        ok, _ = close(orow[i], want, sc, exact)
+                        if not ok:
+                            return Failure("oracle", f"{where}: row {i} = {out[i].tolist()} is not clip(parent returned "
+                                           f"by ask_dqd + sigma_g * objective gradient) = {[float(v) for v in want]}; "
+                                           f"returned parent {parents[i].tolist()}")
+                    else:
+                        inside = all((lo[k] is None or orow[i][k] > lo[k]) and (hi[k] is None or orow[i][k] < hi[k])
+                                     for k in range(n))
+                        if inside:
+                            # the final clip was inactive: out - returned parent must lie in the span of the gradients
+                            A = np.array([[float(v) for v in row] for row in jst[i]], dtype=np.float64).T  # (n, m)
+                            d = np.array([float(orow[i][k] - pr[k]) for k in range(n)])
+                            coef = np.linalg.lstsq(A, d, rcond=None)[0]
+                            resid = float(np.linalg.norm(A @ coef - d))
+                            if resid > 1e-9 * float(sc):
+                                return Failure("oracle", f"{where}: row {i} minus the parent returned by ask_dqd is not "
+                                               f"in the span of the supplied gradients (residual {resid:.3g}); returned "
+                                               f"parent {parents[i].tolist()}, row {out[i].tolist()}")
+                            ctx.count("gop:span-checked")
+                    # ---- model (coefficients reproduced from the seed when measure gradients are on)
+                    ok, w = close(orow[i], mrows[i], sc, exact)
                     if not ok:
                         return Failure("corr", f"{where}: row {i} impl={out[i].tolist()} "
-                                       f"model={[float(v) for v in mrows[i]]} (parent + |c0| grad f + sum c_j grad m_j)")
+                                       f"model={[float(v) for v in mrows[i]]} "
+                                       f"(clip(returned parent + |c0| grad f + sum c_j grad m_j))")
                     if w:
                         ctx.extra["max_err_over_tol"] = max(ctx.extra.get("max_err_over_tol", 0.0), float(w))
+                    if any(v in (lo[k], hi[k]) for k, v in enumerate(pr)):
+                        ctx.count("gop:ask-from-clipped-parent")
                 ctx.count("gop:ask")
                 continue
             raise ValueError(f"unknown op {o}")
@@ -818,12 +896,32 @@ def gen_gop(rng):
     mg = rng.random() < 0.6
     case = {"emitter": "gop", "n": n, "mdim": md, "batch": batch, "mg": mg, "norm": rng.random() < 0.4,
             "line": rng.random() < 0.3, "exact": True,
-            "sigma": rng.choice(["0", "0", "1/4", "1/2"]), "sigma_g": rng.choice(["1/2", "1", "2", "1/8"]),
+            "sigma": rng.choice(["0", "0", "1/4", "1/2", "2"]), "sigma_g": rng.choice(["1/2", "1", "2", "1/8"]),
             "line_sigma": rng.choice(["0", "1/2"]), "eps": rng.choice(["1/1024", "1/100000000"]),
             "x0": [rng.choice(["1", "-1", "1/2", "3", "0"]) for _ in range(n)],
             "seed": rng.randrange(1 << 30), "aseed": rng.randrange(1 << 30)}
     if case["sigma"] != "0" or case["line"]:
         case["exact"] = case["sigma"] in ("0",) and not case["line"]
+    # solution bounds: the archive's elites are k/4 with |k| <= 16 and sigma is up to 2, so with these boxes the
+    # perturbed parents are clipped often (tight boxes: almost always)
+    layout = rng.choice(["none", "box", "box", "onesided", "tight-x0", "tight", "wide"])
+    case["layout"] = layout
+    if layout == "none":
+        case["bounds"] = None
+    elif layout == "box":
+        case["bounds"] = [["-1", "1"]] * n
+    elif layout == "wide":
+        case["bounds"] = [["-3", "3"]] * n
+    elif layout == "tight":
+        case["bounds"] = [["-1/4", "1/4"]] * n
+    elif layout == "tight-x0":
+        case["bounds"] = [[q(Fraction(v) - Fraction(1, 8)), q(Fraction(v) + Fraction(1, 8))] for v in case["x0"]]
+    else:
+        cyc = [[None, "1/2"], ["-1/2", None], None, ["-1", "1"], [None, None]]
+        case["bounds"] = [cyc[(i + n) % len(cyc)] for i in range(n)]
+    if layout != "none" and case["sigma"] == "0" and rng.random() < 0.5:
+        case["sigma"] = rng.choice(["1/2", "2"])   # sigma large relative to the box
+        case["exact"] = False
     ops = []
     if case["line"] or rng.random() < 0.6:
         ops.append(gen_arch_add(rng, n, md))
@@ -842,7 +940,8 @@ def gen_gop(rng):
             ops.append({"op": "tell"})
         if rng.random() < 0.3:
             ops.append(gen_arch_add(rng, n, md))
-    case["ops"] = [{"op": "cfg", "tag": f"gop/{n}/{md}/{batch}/{mg}/{case['norm']}/{case['line']}/{case['seed']}"}] + ops
+    case["ops"] = [{"op": "cfg", "tag": f"gop/{n}/{md}/{batch}/{mg}/{case['norm']}/{case['line']}/{layout}/"
+                                        f"{case['seed']}"}] + ops
     return case
 
 
@@ -868,7 +967,7 @@ def run(ctx):
                                  ("gae-zero-parents", 80, 3000, 4, 50), ("gae-refusal", 60, 2000, 3, 35)]:
         ctx.explore(name, (lambda rng, name=name: gen_gae(rng, name)), rc, ctx.n(nq, nt), nontrivial=nontrivial,
                     time_budget=tq if quick else tt)
-    ctx.explore("gop", gen_gop, rc, ctx.n(150, 6000), nontrivial=nontrivial, time_budget=7 if quick else 95)
+    ctx.explore("gop", gen_gop, rc, ctx.n(220, 8000), nontrivial=nontrivial, time_budget=9 if quick else 110)
 
 
 def replay(ctx, case):
